@@ -32,6 +32,14 @@ impl VoronoiCell {
         }
     }
 
+    /// A [`VoronoiCell`] that is not constructed (partial construction), for generator `idx`.
+    pub(super) fn inactive(idx: usize) -> Self {
+        Self {
+            idx,
+            ..Self::default()
+        }
+    }
+
     /// Build a [`VoronoiCell`] from a [`ConvexCell`] by computing the relevant
     /// integrals.
     ///
